@@ -34,6 +34,23 @@ func verifStatusWrite(filename string, oldState int, oldSize int64, newState int
 	fmt.Fprintf(f, "%d %s %d %d %d %d %d %q\n", os.Getpid(), filename, oldState, oldSize, newState, newSize, time.Now().UnixNano(), detail)
 }
 
+// verifDead holds workceptor instances that the harness has declared gone. A harness that restarts the work subsystem inside
+// one process (instead of killing the process) calls VerifMarkDead on the old instance: unit objects of that instance, whose
+// goroutines the harness cannot stop, then no longer write status records - as if their process had ended.
+var verifDead sync.Map
+
+// VerifMarkDead makes every later status write through unit objects of w a no-op. Build tag "verif" only.
+func VerifMarkDead(w *Workceptor) { verifDead.Store(w, true) }
+
+func verifIsDead(w *Workceptor) bool {
+	if w == nil {
+		return false
+	}
+	_, dead := verifDead.Load(w)
+
+	return dead
+}
+
 var (
 	verifCrashLock   sync.Mutex
 	verifCrashCounts = map[string]int{}
